@@ -15,6 +15,10 @@ type tablePolicy struct {
 	ExemptAllow    map[string]string `json:"exempt_allow"`
 	FieldNameAllow map[string]string `json:"fieldname_allow"`
 	NamespaceAllow map[string]string `json:"namespace_allow"`
+	// positions typed Pipeline / OperatorArray / OperatorMap: a value that is NOT a
+	// container passes through unchanged there (justification J5), so these positions
+	// must be ones whose scalar form is not a client literal
+	ShapePassAllow map[string]string `json:"shape_pass_allow"`
 }
 
 func loadTablePolicy() (*tablePolicy, error) {
@@ -91,6 +95,8 @@ func tablePolicyRule(c *Ctx, r *Report, rule string) {
 			allow = pol.FieldNameAllow
 		case "Namespace":
 			allow = pol.NamespaceAllow
+		case "Pipeline", "OperatorArray", "OperatorMap":
+			allow = pol.ShapePassAllow
 		default:
 			continue
 		}
@@ -99,7 +105,11 @@ func tablePolicyRule(c *Ctx, r *Report, rule string) {
 		if ok {
 			r.OK(rule, construct, "src/operators.go", "reviewed: "+reason)
 		} else {
-			r.Bad(rule, construct, "src/operators.go", fmt.Sprintf("table position typed %s is not in the reviewed allow-list: values at this position reach the output unredacted", ln))
+			what := "values at this position reach the output unredacted"
+			if ln == "Pipeline" || ln == "OperatorArray" || ln == "OperatorMap" {
+				what = "a value at this position that is not a document / array (a plain string, number ...) reaches the output unredacted"
+			}
+			r.Bad(rule, construct, "src/operators.go", fmt.Sprintf("table position typed %s is not in the reviewed allow-list: %s", ln, what))
 		}
 	}
 	// the operators the property names must never be typed pass-through
@@ -109,7 +119,7 @@ func tablePolicyRule(c *Ctx, r *Report, rule string) {
 	for _, op := range sensitive {
 		if v, ok := t.Lookup("CoreOperators", op); ok && v.Kind == "leaf" {
 			switch t.LeafName(v) {
-			case "Exempt", "FieldName", "Namespace":
+			case "Exempt", "FieldName", "Namespace", "Pipeline", "OperatorArray", "OperatorMap":
 				badOps = append(badOps, op+"="+t.LeafName(v))
 			}
 		}
